@@ -282,7 +282,7 @@ class LibMixin:
             obj, is_arrow = objinfo
             core = self.skip(obj)
             if is_arrow: atxt.append(self.expr(obj))
-            elif core.get('valueCategory') == 'lvalue' or core.get('kind') in ('DeclRefExpr', 'MemberExpr'):
+            elif self.is_lv(core):
                 atxt.append(self.addr(self.expr(obj)))
             else:
                 tn = self.tmp('obj'); self.pre.append('%s %s = %s;' % (t.c, tn, self.expr(obj))); atxt.append('&' + tn)
@@ -293,7 +293,7 @@ class LibMixin:
             suffix.append(cident(at.c))
             if self.big(at) or at.kind == 'opaque':
                 core = self.skip(a)
-                if core.get('valueCategory') == 'lvalue' or core.get('kind') in ('DeclRefExpr', 'MemberExpr'):
+                if self.is_lv(core):
                     atxt.append(self.addr(self.expr(core)))
                 else:
                     tn = self.tmp('arg'); self.pre.append('%s %s = %s;' % (at.c, tn, self.expr(a))); atxt.append('&' + tn)
@@ -357,7 +357,7 @@ class LibMixin:
             ptxt.append('%s%s* this_' % (cst, ot.c))
             core = self.skip(obj)
             if is_arrow: atxt.append(self.expr(obj))
-            elif core.get('valueCategory') == 'lvalue' or core.get('kind') in ('DeclRefExpr', 'MemberExpr'):
+            elif self.is_lv(core):
                 atxt.append(self.addr(self.expr(obj)))
             else:
                 tn = self.tmp('obj'); self.pre.append('%s %s = %s;' % (ot.c, tn, self.expr(obj))); atxt.append('&' + tn)
